@@ -24,14 +24,24 @@ type pending struct {
 }
 
 func cmdFor(r *vh.Rand) []byte {
+	var b []byte
 	switch r.Intn(8) {
 	case 0:
-		return []byte{byte(r.Intn(3))}
+		b = []byte{byte(r.Intn(3))}
 	case 1:
-		return r.Bytes(2)
+		b = r.Bytes(2)
 	default:
-		return r.Bytes(1 + r.Intn(5))
+		b = r.Bytes(1 + r.Intn(5))
 	}
+	// result-shape dimension of the harness state machine: zero Result, Value 0 with
+	// empty non-nil Data, Value != 0 with nil Data, Value 0 with Data
+	if r.Chance(1, 4) {
+		b[0] = byte(0xE0 + r.Intn(4))
+		if r.Chance(1, 2) {
+			b[0] = byte(0xE0 + r.Intn(2))
+		}
+	}
+	return b
 }
 
 func entryText(c, s, resp uint64, cmd []byte) string {
